@@ -45,6 +45,9 @@ func (c12) Floors(tier string, c map[string]int64) []string {
 	if c["concurrent_ops"] < 1000 {
 		out = append(out, "fewer than 1000 concurrent operations")
 	}
+	if c["schemas_with_8_or_more_types"] == 0 {
+		out = append(out, "no schema with 8 or more types")
+	}
 	if c["cold_rounds"] == 0 {
 		out = append(out, "no cold-start round (brand-new schema first used concurrently)")
 	}
@@ -228,13 +231,16 @@ func (o *c12op) exec(s *SchemaSpec, schema *jsonapi.Schema) string {
 		sort.Strings(msgs)
 		return strings.Join(msgs, ";")
 	case "Rels":
-		var sb strings.Builder
 		// names only: for struct-backed types the two sides of a pair may disagree on FromOne (tags
 		// cannot express it), and which side's copy survives is not part of this property
+		// ... and as a set: relationships declared without FromType tie in Rels()'s order (C16 judges the
+		// order for coherent schemas whose relationships name their owner)
+		var items []string
 		for _, r := range schema.Rels() {
-			fmt.Fprintf(&sb, "{%s.%s->%s.%s}", r.FromType, r.FromName, r.ToType, r.ToName)
+			items = append(items, fmt.Sprintf("{%s.%s->%s.%s}", r.FromType, r.FromName, r.ToType, r.ToName))
 		}
-		return sb.String()
+		sort.Strings(items)
+		return strings.Join(items, "")
 	}
 	return "?"
 }
@@ -354,6 +360,14 @@ func (m c12) Case(c *Ctx, r *RNG) {
 		c.Counters["race_disabled_workers"] = 1
 	}
 	s := genSchema(r, genOpts{MaxTypes: 4, MaxAttrs: 5, MaxRels: 3, AllowWrap: true, Coherent: true})
+	if r.Chance(1, 3) {
+		// schemas with many types (lookups may be indexed differently above some size)
+		s = genSchema(r, genOpts{MaxTypes: 14, MaxAttrs: 3, MaxRels: 2, AllowWrap: true, Coherent: true})
+		for len(s.Types) < 8 {
+			s = genSchema(r, genOpts{MaxTypes: 14, MaxAttrs: 3, MaxRels: 2, AllowWrap: true, Coherent: true})
+		}
+		c.Count("schemas_with_8_or_more_types")
+	}
 	for i := range s.Types {
 		if !s.Types[i].Wrapped && r.Chance(1, 3) {
 			s.Types[i].NoFromType = true // relationships declared without FromType (one-way relationships need none)
